@@ -9,6 +9,9 @@ T-step request:  `init=<sink|-> <t>.<r|->:<op>[:<a>[:<b>]] ...`
        contained panic (a `catch_unwind` scope / a spawned thread that owns it); a drop is a drop: same model event
   reply: one result per op, space separated: `ok noop panic d<sink> ret<entry> none T F` (`-` for an empty script)
 
+Micro-step request: same line, with `<t>.<r|->:take` / `<t>.<r|->:dropPair` events (the two halves of a detach,
+  other operations in between); run by `Global.microRun`; `dropPair` has no result of its own.
+
 T-trace request: `race closed=<0|1> trace=<t>.<k>.<0|1>,...|- written=<t>.<k>,...|-`
   reply: `accept` | `reject`   (`Global.raceAccept`, the predicate theorem `c17_race_accept` is about)
 -/
@@ -55,6 +58,13 @@ def parseItem (s : String) : Option (Ctx × Op) :=
   | c :: rest => do pure (← parseCtx c, ← parseOp rest)
   | [] => none
 
+/-- micro-step scripts: additionally `<ctx>:take` and `<ctx>:dropPair` (the two halves of a detach) -/
+def parseMicro (s : String) : Option Micro :=
+  match s.splitOn ":" with
+  | [c, "take"] => (parseCtx c).map .take
+  | [c, "dropPair"] => (parseCtx c).map .dropPair
+  | _ => (parseItem s).map fun (c, o) => .op c o
+
 def resStr : Res → String
   | .ok => "ok" | .noop => "noop" | .panic => "panic" | .dest d => s!"d{d}"
   | .returned e => s!"ret{e}" | .none => "none" | .bool true => "T" | .bool false => "F"
@@ -67,6 +77,13 @@ def handleStep (toks : List String) : String :=
     | some init, some script =>
       let rs := (run (State.init init) script).2
       if rs.isEmpty then "-" else " ".intercalate (rs.map resStr)
+    | some init, none =>
+      -- not a plain script: a micro-step schedule (`take` / `dropPair` events)?
+      match opsS.mapM parseMicro with
+      | some evs =>
+        let rs := (microRun ⟨State.init init, []⟩ evs).2
+        if rs.isEmpty then "-" else " ".intercalate (rs.map resStr)
+      | none => "bad-op"
     | _, _ => "bad-op"
   | [] => "bad-op"
 
